@@ -91,7 +91,9 @@ class Scn:
         s = os.stat(src)
         data = open(src, 'rb').read()
         if decoy:
-            data = bytes((x ^ 0xA5) for x in data[:1]) + w.rng.randbytes(len(data) - 1) if data else data
+            # every byte differs from the source (a random tail could equal a 1-byte last block by chance, and that block
+            # would then be verified and legitimately BLK: seed 22 of the first sweep)
+            data = bytes((x ^ w.rng.randint(1, 255)) for x in data)
         w.write(d, sub, data, s.st_mtime_ns)
         w.log.append(['plant-decoy' if decoy else 'plant-copy', d, sub, 'like', like_d, like_sub])
 
